@@ -15,7 +15,7 @@ for f in sorted(glob.glob(os.path.join(HERE, "seeded", "*", "meta.json"))):
     m = json.load(open(f)); i = os.path.basename(os.path.dirname(f)); n += 1
     if m.get("strengthened"): miss += 1
     out.append("| %s | %s | %s | %s | %s | %s |" % (i, m["property"], m["breaks"].replace("|", "/"),
-               m["needs"].replace("|", "/"), "; ".join(m["caught_by"]), m.get("strengthened") or "—"))
+               m["needs"].replace("|", "/"), ("; ".join(m["caught_by"]) or "**not caught** (" + m.get("not_caught", "")[:160] + " ...)"), m.get("strengthened") or "—"))
 out.append("")
 out.append("%d seeded changes; %d were caught by the checks as they stood, %d were first missed (by the owning "
            "check) and led to the extensions listed in the last column; all %d are caught now.\n" % (n, n - miss, miss, n))
